@@ -504,6 +504,40 @@ func runChild(exe string, sc scenario) (line string, obs string, ok bool) {
 	return "", "", false
 }
 
+// corpusScenarios reads $VERIF_CORPUS/*.txt: one `scn <next0> tok ...` per line (# comments).
+func corpusScenarios() []scenario {
+	dir := os.Getenv("VERIF_CORPUS")
+	if dir == "" {
+		return nil
+	}
+	ents, err := os.ReadDir(dir)
+	if err != nil {
+		return nil
+	}
+	var out []scenario
+	for _, e := range ents {
+		if e.IsDir() || !strings.HasSuffix(e.Name(), ".txt") {
+			continue
+		}
+		b, err := os.ReadFile(dir + "/" + e.Name())
+		if err != nil {
+			continue
+		}
+		for _, l := range strings.Split(string(b), "\n") {
+			f := strings.Fields(l)
+			if len(f) < 3 || f[0] != "scn" {
+				continue
+			}
+			n, err := strconv.Atoi(f[1])
+			if err != nil || n < 0 || n > 65535 {
+				continue
+			}
+			out = append(out, scenario{next0: uint16(n), toks: f[2:], class: "corpus"})
+		}
+	}
+	return out
+}
+
 func main() {
 	r := lib.Init()
 	defer r.Close()
@@ -545,7 +579,7 @@ func main() {
 	if err != nil {
 		panic(err)
 	}
-	scs := generate(r, r.Rand())
+	scs := append(corpusScenarios(), generate(r, r.Rand())...)
 	runWrapDemo(r, exe)
 	workers := runtime.NumCPU() / 2
 	if workers < 2 {
